@@ -269,3 +269,41 @@ func TestGoexitInDefer(t *testing.T) {
 	}
 	t.Logf("execs=%d", st.Execs)
 }
+
+func TestSharding(t *testing.T) {
+	mk := func() *Exec {
+		return &Exec{Body: func() {
+			var mu Mutex
+			var a AtomicInt32
+			var wg WaitGroup
+			wg.Add(3)
+			for i := 0; i < 3; i++ {
+				Go(func() {
+					mu.Lock()
+					a.Store(a.Load() + 1)
+					mu.Unlock()
+					a.Load()
+					wg.Done()
+				})
+			}
+			wg.Wait()
+		}}
+	}
+	for _, delay := range []bool{false, true} {
+		whole := Explore(Options{Bound: 2, Delay: delay}, mk)
+		var sum [3]int64
+		for k := 0; k < 5; k++ {
+			st := Explore(Options{Bound: 2, Delay: delay, Shard: k, Shards: 5}, mk)
+			if st.ExecsPerLevel[0] != whole.ExecsPerLevel[0] {
+				t.Fatalf("level 0 differs: %v vs %v", st.ExecsPerLevel, whole.ExecsPerLevel)
+			}
+			for l := 1; l <= 2; l++ {
+				sum[l] += st.ExecsPerLevel[l]
+			}
+		}
+		if sum[1] != whole.ExecsPerLevel[1] || sum[2] != whole.ExecsPerLevel[2] {
+			t.Fatalf("delay=%v: shards cover %v, whole search %v", delay, sum, whole.ExecsPerLevel)
+		}
+		t.Logf("delay=%v whole=%v", delay, whole.ExecsPerLevel)
+	}
+}
